@@ -13,9 +13,10 @@ TNS = 10
 PREFIX = "Template:"
 BOUND_S = 20.0
 
-# distinct also after upper-casing the first letter
+# includes two pairs that differ only in the case of the first letter: both
+# are stored and referenced in exactly their own spelling
 NAME_POOL = ["A", "B", "C", "foo", "Foo bar", "Éa", "x y z", "日本", "ß-t",
-             "D/doc", "q:r", "Z9"]
+             "D/doc", "q:r", "Z9", "Box", "box", "éa"]
 
 
 # ------------------------------------------------------------ reference model
@@ -108,6 +109,9 @@ def features(case):
     if any(not n["name"][:1].isupper() or " " in n["name"]
            or not n["name"].isascii() for n in nodes):
         f.add("unusual-name")
+    names_l = [n["name"][:1].upper() + n["name"][1:] for n in nodes]
+    if len(set(names_l)) < len(names_l):
+        f.add("case-twin-names")
     return f
 
 
